@@ -27,7 +27,7 @@ def spellings(a):
     return out
 
 
-CONTENTS = {"e": b"", "s": pattern(10, 4), "m": pattern(2 * 4096 + 5, 5)}
+CONTENTS = {"e": b"", "s": pattern(10, 4), "m": pattern(2 * 4096 + 5, 5), "big": pattern(1048577, 6)}  # big: past any "large object" threshold
 
 
 def _combo(args):
